@@ -214,8 +214,9 @@ def in_as_alternatives(prog, r):
   return G.p_program(out) if changed[0] else None
 
 
-def lift_calls(prog, r):
-  """A functional call in an expression -> an extra conjunct binding logica_value."""
+def lift_calls(prog, r, shuffle_body=False):
+  """A functional call in an expression -> an extra conjunct binding logica_value (appended to the body; with
+  shuffle_body the conjuncts of the new body are permuted - used when looking for a conjunct order that compiles)."""
   changed = [False]
   out = []
   for d in prog:
@@ -248,10 +249,15 @@ def lift_calls(prog, r):
       body = lift_top(rule.get('body')) if rule.get('body') is not None else None
       if extra:
         items = (list(body[1]) if body and body[0] == 'and' else ([body] if body else [])) + extra
+        if shuffle_body:
+          r.shuffle(items)
         body = ('and', items)
       rules.append(dict(rule, head=head, body=body))
     out.append(dict(d, rules=rules))
   return G.p_program(out) if changed[0] else None
+
+
+lift_calls.reorder = lambda prog, r: lift_calls(prog, r, shuffle_body=True)
 
 
 def field_shorthand(prog, r):
